@@ -264,7 +264,8 @@ def coq_eval(ctx, imports, items, wrap="bad", shards=None, timeout=900, scope="N
     n = len(items)
     if n == 0:
         return []
-    shards = shards or min(NCPU, max(1, n // 40))
+    # shards of bounded size (a coqc run grows super-linearly with the file), run NCPU at a time
+    shards = shards or max(min(NCPU, max(1, n // 40)), (n + 399) // 400)
     size = (n + shards - 1) // shards
     d = os.path.join(ctx.workdir, "eval")
     shutil.rmtree(d, ignore_errors=True)
@@ -629,6 +630,23 @@ def standard_check(ctx, spec):
         proof_fail += pr["failures"]
         for f in pr["failures"]:
             ctx.log("PROOF-FAILURE:", f)
+    # 3b. thorough tier: independent re-check of the compiled proofs with coqchk
+    coqchk_report = None
+    if ctx.tier == "thorough" and pr["ok"] and not getattr(spec, "skip_coqchk", False):
+        mod = "HV." + spec.props_vo[len("theories/"):-3].replace("/", ".")
+        rc, out = run(["coqchk", "-o", "-silent", "-Q", "theories", "HV", mod], cwd=COQ, timeout=3000)
+        axioms = []
+        m = re.search(r"\* Axioms:(.*?)\n\s*\n\* ", out, re.S)
+        if m:
+            axioms = [l.strip() for l in m.group(1).split("\n") if l.strip() and l.strip() != "<none>"]
+        coqchk_report = {"rc": rc, "module": mod, "axioms": axioms}
+        allowed = set(spec.allowed_axioms) | set(getattr(spec, "coqchk_allowed", ()))
+        bad = [a for a in axioms if a.split(".")[-1] not in allowed and a not in allowed]
+        if rc != 0:
+            proof_fail.append("coqchk failed on %s:\n%s" % (mod, out[-1500:]))
+        elif bad:
+            proof_fail.append("coqchk reports axioms outside the allow-list: %s" % bad)
+        ctx.coqchk_report = coqchk_report
     # 4. harness
     ctx.log("building harness", spec.crate)
     ok, bindir, blog = cargo_build(spec.crate, spec.group)
@@ -734,6 +752,8 @@ def standard_check(ctx, spec):
         "known_findings_rederived": sorted(seen_keys),
         "proof_failures": proof_fail,
     }
+    if getattr(ctx, "coqchk_report", None):
+        coverage["coqchk"] = ctx.coqchk_report
     if hasattr(spec, "distribution"):
         coverage["distribution"] = spec.distribution(cases, results)
     # level "other" needs coverage.explanation; plug-ins may add any further keys
